@@ -4,10 +4,11 @@ Used by C10 (verdict), C11 and C17 (their monitors watch the same executions).""
 from . import devices, fakesock, reflogix, refproject as rpj, reftarget as rt
 from .bench import Bench, ScenarioDead
 
-CIP_OPS = ["open", "close", "gm_conn", "gm_ucmm", "gm_usend", "with_ok", "with_exc", "list_id"]
-LOGIX_OPS = ["open", "close", "read", "write", "read_big", "plc_name", "with_ok", "with_exc", "gm_conn"]
+# gm_conn_us: generic_message(..., unconnected_send=True) with `connected` left at its default (True) - a connected message all the same
+CIP_OPS = ["open", "close", "gm_conn", "gm_ucmm", "gm_usend", "with_ok", "with_exc", "list_id", "gm_conn_us"]
+LOGIX_OPS = ["open", "close", "read", "write", "read_big", "plc_name", "with_ok", "with_exc", "gm_conn", "gm_conn_us"]
 SLC_OPS = ["open", "close", "slc_read", "slc_write", "with_ok"]
-POLICIES = ["large-ok", "large-refused", "all-fo-refused", "session-refused", "service-error"]
+POLICIES = ["large-ok", "large-refused", "all-fo-refused", "session-refused", "service-error", "list-identity-broken"]
 FAULT_KINDS = ["send-raise", "recv-raise", "recv-eof", "vanish"]
 
 
@@ -23,6 +24,24 @@ def make_policy(name):
         pol.accept_large_fo = pol.accept_std_fo = False
     elif name == "session-refused":
         pol.accept_register = False
+    elif name == "list-identity-broken":
+        # a target whose TCP ListIdentity replies cannot be decoded: encapsulation error without a body / no identity item /
+        # an identity item cut short.  Everything else works, so open() (which only wants to know what it is talking to)
+        # and the rest of the history must behave as against any other healthy target
+        state = {"n": 0}
+
+        def mutate(info, frame, state=state):
+            if info.get("kind") != "list_identity":
+                return frame
+            state["n"] += 1
+            v = state["n"] % 3
+            if v == 0:
+                return frame[:2] + b"\x00\x00" + frame[4:8] + (1).to_bytes(4, "little") + frame[12:24]
+            if v == 1:
+                return frame[:2] + (2).to_bytes(2, "little") + frame[4:24] + b"\x00\x00"
+            cut = frame[:24 + 2 + 12]
+            return cut[:2] + (len(cut) - 24).to_bytes(2, "little") + cut[4:]
+        pol.mutate_reply = mutate
     return pol
 
 
@@ -90,6 +109,8 @@ class Run:
             return b.call(op, d.close)
         if op == "gm_conn":
             return b.call(op, d.generic_message, service=0x0E, class_code=0x01, instance=1, attribute=7, connected=True)
+        if op == "gm_conn_us":
+            return b.call(op, d.generic_message, service=0x0E, class_code=0x01, instance=1, attribute=7, unconnected_send=True)
         if op == "gm_ucmm":
             return b.call(op, d.generic_message, service=0x01, class_code=0x01, instance=1, connected=False, unconnected_send=False)
         if op == "gm_usend":
@@ -184,7 +205,7 @@ class Run:
         t.triads.clear()
         for cn in list(t.sessions.values()):
             pass
-        if self.policy_name in ("large-ok", "large-refused", "service-error"):
+        if self.policy_name in ("large-ok", "large-refused", "service-error", "list-identity-broken"):
             self.dev.force_status = None
             st, out = b.call("reopen", self.drv.open)
             ctxt = f"history {list(self.history)}, policy {self.policy_name}, fault {self.fault}, driver {self.kind}"
